@@ -175,6 +175,8 @@ def run(ctx):
     todo = []
     for (stratum, lst), rep in zip(lists, reps):
         texts = [rulegen.canon(r) for r in lst]
+        if worker.timed_out(ctx, rep):
+            continue
         if "ok" not in rep:
             ctx.case(None)
             msg = str(rep.get("error") or rep.get("panic") or rep)
